@@ -158,7 +158,8 @@ func runC11(c *core.Ctx) {
 				return "timer-reset", true
 			}
 		case *ssa.Defer:
-			id := an.CalleeID(x)
+			// `defer x.M()` and `defer func() { x.M() }()` are the same release
+			id := an.DeferredCalleeID(x)
 			if id == "sync.Mutex.Unlock" {
 				return "defer-unlock", true
 			}
